@@ -93,10 +93,17 @@ let handle (toks : string list) : string =
            let model = show_trace (run_hops c hops) in
            let impl = String.concat " " obs in
            let cl = List.map (fun t -> if t = "-" then None else Some (zs t)) curs in
+           let maxclock = List.fold_left (fun acc (now, _) -> if Z.ltb acc now then now else acc) (zs base) (segs (zs base) [] [] ops) in
+           let tbl = Hashtbl.create 64 in
+           let tr = parse_trace tbl obs in
            (match wm_regress cl with
             | Some i -> Printf.sprintf "chk watermark_regressed at_operation=%d observed=%s%s" (int_of_nat i)
                           (String.concat "," curs) (if model <> impl then " (and model differs)" else "")
             | None ->
+             match wm_beyond_guard maxclock tr with
+             | Some i -> Printf.sprintf "chk future_guard_exceeded trace_event=%d a received watermark is more than 24 h ahead of the latest clock reading %s%s"
+                           (int_of_nat i) (string_of_int (int_of_z maxclock)) (if model <> impl then " (and model differs)" else "")
+             | None ->
                if model <> impl then "diff tumbling_trace_idle model=" ^ model
                else if List.mem "I" ops then "ok nt" else "ok")
        | _ -> "bad line")
